@@ -44,6 +44,11 @@ std::vector<H> Vec() {
 template <typename V>
 using Wrapped = yaclib::wrap_void_t<V>;
 
+// the element type of WhenAll's containers (public alias of when_all.hpp)
+static_assert(std::is_same_v<yaclib::ContainerElem<yaclib::detail::UniqueCore<int, StopError>, FailPolicy::FirstFail>, int>);
+static_assert(std::is_same_v<yaclib::ContainerElem<yaclib::detail::UniqueCore<void, StopError>, FailPolicy::FirstFail>, yaclib::Unit>);
+static_assert(std::is_same_v<yaclib::ContainerElem<yaclib::detail::SharedCore<void, UserError>, FailPolicy::None>, Result<void, UserError>>);
+
 // ---- WhenAll -------------------------------------------------------------------------------------------------------------
 // same value type: vector (or void for void inputs under FirstFail)
 template <typename H, typename V, typename E>
